@@ -1030,7 +1030,9 @@ fn builtin_input(args: Vec<Rc<Object>>) -> Result<Rc<Object>, String> {
     if args.len() == 1 {
         if let Object::Str(s) = args[0].as_ref() {
             print!("{}", s);
-            io::stdout().flush().expect("Failed to flush stdout");
+            if let Err(e) = io::stdout().flush() {
+                return Ok(Rc::new(Object::Err(ErrorObj::IO(e))));
+            }
         } else {
             return Err(String::from("argument should be a string"));
         }
